@@ -355,9 +355,14 @@ func (fr *Frame) atCallObligations(key string, args []Val, reach string, h Heap)
 			continue
 		}
 		lit, isLit := "", false
-		for l, name := range u.so.strLits {
-			if name == args[0].T {
-				lit, isLit = l, true
+		if ac.Re.String() == ".*" {
+			// the pattern .* selects every call of the callee (argument flow into a constructor etc.)
+			lit, isLit = "", true
+		} else {
+			for l, name := range u.so.strLits {
+				if name == args[0].T {
+					lit, isLit = l, true
+				}
 			}
 		}
 		if !isLit || !ac.Re.MatchString(lit) {
